@@ -135,7 +135,10 @@ def opt_is_none(v: V) -> z3.BoolRef:
 def opt_get(v: V) -> V:
     assert isinstance(v.t, TOpt)
     if is_ref_type(v.t.inner):
-        return V(v.t.inner, v.z)
+        r = V(v.t.inner, v.z)
+        if getattr(v, "_snap", None) is not None:
+            r._snap = v._snap      # old(container): keep reading the pre-state content
+        return r
     return unbox(sort_of(v.t).val(v.z), v.t.inner)
 
 
